@@ -1,3 +1,4 @@
+\* the code before the fix: an upload that breaks off while the body is copied ends the client's response cleanly
 \* exhaustive: 3 requests, 3 ids, agent poller + one foreign poller, one fault on r1
 CONSTANTS
   Req = {r1, r2, r3}
@@ -8,9 +9,9 @@ CONSTANTS
   MaxFaults = 1
   Victims = {r1}
   UniqueIds = TRUE
-  CleanCut = FALSE
+  CleanCut = TRUE
 INIT Init
 NEXT Next
 CHECK_DEADLOCK FALSE
-INVARIANTS TypeOK Correlation OneClientPerResponse AtMostOnce HandOffOnce Isolation Survives BadGateway NoSilentTruncation
-PROPERTIES ExactlyOnce
+INVARIANT NoSilentTruncation
+
